@@ -45,7 +45,7 @@ def _layouts(tier):
 
 
 def AXES(tier):
-    return {"layout": len(_layouts(tier)), "scale": [1.0, 2.0], "picker": PICKERS, "chunking": CHUNKS, "dtype": DTYPES, "matcher_min_distance_px": [3.0, 0.8]}
+    return {"layout": len(_layouts(tier)), "scale": [1.0, 2.0, 0.5], "picker": PICKERS, "chunking": CHUNKS, "dtype": DTYPES, "matcher_min_distance_px": [3.0, 0.8]}
 
 
 def cases(tier, seed):
@@ -53,7 +53,7 @@ def cases(tier, seed):
         assert np.linalg.norm(np.array(a) - np.array(b)) >= 7.0, (a, b)
     out = []
     for li, lay in enumerate(_layouts(tier)):
-        for scale in (1.0, 2.0):
+        for scale in (1.0, 2.0, 0.5):
             for picker in PICKERS:
                 if picker == "ZNCC" and tier == "quick" and li % 3 != 0:
                     continue
@@ -72,6 +72,10 @@ def cases(tier, seed):
                 out.append({"layout": lay, "scale": scale, "picker": picker, "dtype": "float32", "seed": seed, "img": [1, 24, 24]})
     # a fine rotation search (343 rotations, more than a byte can index): particles planted at an early and at a late rotation
     out.append({"family": "many-rotations", "ks": [40, 300, 342, 255, 256]})
+    # a periodic (filament-like) template: its score landscape has side lobes above min_score a few pixels from the true peak,
+    # which only the true peak suppresses - also when a chunk seam lies between the two (scale < 1: distances in nm and px differ)
+    for scale, md in ((0.5, 3.0), (1.0, 6.0), (0.5, 2.5)):
+        out.append({"family": "filament", "scale": scale, "min_distance": md})
     # call histories on one picker object: a pick must not depend on which images / scales the picker served before
     for picker in ("ZNCC-provider", "LoG", "DoG"):
         out.append({"family": "history", "picker": picker, "depth": 2 if tier == "quick" else 3})
@@ -174,6 +178,40 @@ def _match(picks, refs, tol):
 
 
 TBLOBS2 = [(1.0, (-1.8, 1.3, 0.9), 0.9), (0.9, (1.5, -1.4, -1.1), 0.9), (0.6, (1.6, 1.7, 1.2), 0.8)]  # no central blob: unlike TBLOBS
+
+
+def _run_filament(case):
+    import dask
+
+    from acryo import pick
+
+    dask.config.set(scheduler="synchronous")
+    scale, md = case["scale"], case["min_distance"]
+    fil = [(1.0, (0.0, 0.0, -5.0), 1.0), (1.0, (0.0, 0.0, 0.0), 1.0), (1.0, (0.0, 0.0, 5.0), 1.0)]
+    tm = data.particle_box((13, 13, 13), blobs=fil)
+    shape = (24, 24, 44)
+    g = np.stack(np.meshgrid(*[np.arange(n, dtype=np.float64) for n in shape], indexing="ij"), -1)
+    centres = [np.array([12.0, 11.0, 14.0]), np.array([11.0, 12.0, 32.0])]
+    img = sum(data.particle(g - c, fil) for c in centres).astype(np.float32)
+    matcher = pick.ZNCCTemplateMatcher(tm, order=1)
+    viol = []
+    ref = None
+    for chunks in (None, (24, 24, 44), (24, 24, 10), (24, 24, 9), (24, 24, 11), (24, 24, 27), (24, 24, 28), (24, 24, 29), (12, 12, 10), (24, 24, 8), (24, 24, 19), (24, 24, 37)):
+        from dask import array as da
+
+        arr = img if chunks is None else da.from_array(img, chunks=chunks)
+        m = matcher.pick_molecules(arr, scale, min_distance=md, min_score=0.5)
+        pos = np.asarray(m.pos, dtype=np.float64) / scale
+        got = sorted(tuple(np.round(p, 1)) for p in pos)
+        ok = len(pos) == 2 and all(any(np.abs(p - c).max() <= 1.0 for p in pos) for c in centres)
+        if not ok:
+            extra = [p.tolist() for p in np.round(pos, 1) if not any(np.abs(p - c).max() <= 1.0 for c in centres)]
+            viol.append((f"{ID}|ZNCC[periodic template]|{'spurious-pick' if extra else 'particle-missed'}|{'numpy' if chunks is None else 'multi-chunk'}",
+                         f"scale {scale}, min_distance {md} nm ({md / scale:g} px), chunks {chunks}: {len(pos)} picks {got} for particles at {[c.tolist() for c in centres]}; extra {extra}"))
+    by = {}
+    for s_, m_ in viol:
+        by.setdefault(s_, m_)
+    return {"nontrivial": True, "outcome": f"filament|{'viol' if viol else 'ok'}", "viol": list(by.items())}
 
 
 def _run_many_rotations(case):
@@ -305,6 +343,8 @@ def run_case(case):
         return _run_history(case)
     if case.get("family") == "many-rotations":
         return _run_many_rotations(case)
+    if case.get("family") == "filament":
+        return _run_filament(case)
     dask.config.set(scheduler="synchronous")
     img, planted = _image(case)
     scale = case["scale"]
